@@ -27,7 +27,8 @@ RULE = ("Hypothesis draws scale graphs of 1-5 scales over {Linear, Polynomial (0
         ' Windows of equal length follow one another and every array returned is re-checked at the end: later reads '
         'must not change it.'
         ' A further job evaluates graphs over long channels (2^10 .. 2^17, +-1 values).'
-        ' DAQmx channels combined by scales are also read through every window.')
+        ' DAQmx channels combined by scales are also read through every window.'
+        ' Group and channel names with quotes and slashes are used in half of the cases.')
 ASSUMPTIONS = [
     "defining formulas evaluated in float64; Table maps scaled values to pre-scaled values and Subtract is right - left, as "
     "the module documents them",
